@@ -10,8 +10,18 @@ NOT_SHOWN = {
          "Cuboid, Triangle/Tetrahedron/TriangularMesh closed forms = their surface integrals (iterated one-variable integrals; not formalised)",
          "Circle, Cylinder, CylinderSegment: need Bulirsch cel/el3 (Legendre elliptic integral) theory, absent from Mathlib v4.33",
          "all of the above are checked against numerical quadrature of the defining integral by the oracle (rel. 2e-6 outside, 2e-4 inside)"],
- "C13": ["Cuboid = mesh = tetrahedra; Cylinder = sum of segments; partition additivity of magnets; Polyline -> Circle: equalities between different closed forms, oracle only "
+ "C13": ["Cuboid = mesh = tetrahedra; Cylinder = sum of segments; Polyline -> Circle: equalities between different closed forms, oracle only "
          "(proved: Tetrahedron = wrapH of its four Triangle sheets, with an inside test independent of the vertex order)",
+         "partition additivity, PROVED for the Cuboid cut by axis-parallel planes into Cuboids of the same polarization (Lemmas/CuboidSplit.lean, through the C01 surface-charge integral: "
+         "parallel faces additive, internal faces cancel, inside the whole <=> inside exactly one part): one cut per axis for the kernel (cuboid_split_x/y/z: every observer off the seven "
+         "planes, inside or outside) and for all four fields B/H/J/M of the wrapper bhjmCuboid outside the 1e-15 surface shells of the three bodies (cuboid_split_wrapper_x/y/z); any list of "
+         "cuts along x (cuboid_split_x_list) and any n x m x k grid (cuboid_grid_partition) for the kernel cuboidB, observer in none of the grid planes; any grid for all four fields of the "
+         "wrapper (cuboid_grid_partition_wrapper) when the observer keeps the distance 1e-15*dim_i/2 from every grid plane of axis i",
+         "partition additivity NOT shown: observers in a "
+         "cut plane or a face plane (there the parts' closed forms are evaluated on their own surface: the wrapper's surface/edge special cases and the 0/0 of the kernel are conventions, the "
+         "oracle samples near but not on them); parts that are rotated or not axis-aligned (not Cuboids); parts with different polarization (then superposition C12, not C13); partitions of "
+         "every other class (Cylinder into CylinderSegments or stacked Cylinders, CylinderSegment into segments, Sphere, Tetrahedron/TriangularMesh into sub-meshes): closed forms in elliptic "
+         "integrals or solid angles, whole-vs-parts oracle only; the shift p - c of the observer stands for `position=c` of an unrotated part (pose handling is C06/C07)",
          "TriangularMesh = wrapH of the sum of its Triangle sheets, per row of any batch, with the inside test as a parameter (trimesh_is_wrapH_of_sheets, about the model the "
          "driver runs); that the ray-casting inside test is the geometric interior is C16 / oracle",
          "TriangularMesh.to_TriangleCollection / from_triangles / from_mesh / from_ConvexHull preserve the field: not modelled, oracle only",
